@@ -575,6 +575,50 @@ func (vc *VC) merge(states []*State) *State {
 		vc.emit(fmt.Sprintf("(assert (= %s %s))", n.S, out.pc.S))
 		out.pc = n
 	}
+	// deferred calls registered on some of the merged paths only: the "armed" flag of a defer
+	// statement that a path did not execute is false on that path (its saved receiver and
+	// arguments are unconstrained there: they are used only when armed)
+	{
+		seen := map[types.Object]bool{}
+		var ks []types.Object
+		for _, s := range live {
+			for k := range s.vars {
+				if !seen[k] && (k.Name() == "armed" || strings.HasPrefix(k.Name(), "deferarg") || k.Name() == "deferrecv") && k.Pkg() == nil {
+					seen[k] = true
+					ks = append(ks, k)
+				}
+			}
+		}
+		sort.Slice(ks, func(i, j int) bool {
+			if ks[i].Pos() != ks[j].Pos() {
+				return ks[i].Pos() < ks[j].Pos()
+			}
+			return ks[i].Name() < ks[j].Name()
+		})
+		for _, k := range ks {
+			var srt string
+			for _, s := range live {
+				if v, ok := s.vars[k]; ok {
+					srt = v.Sort
+				}
+			}
+			for i, s := range live {
+				if _, ok := s.vars[k]; ok {
+					continue
+				}
+				nvars := make(map[types.Object]Term, len(s.vars)+1)
+				for kk, vv := range s.vars {
+					nvars[kk] = vv
+				}
+				if k.Name() == "armed" {
+					nvars[k] = TFalse
+				} else {
+					nvars[k] = vc.fresh(k.Name(), srt)
+				}
+				live[i] = &State{pc: s.pc, vars: nvars, heap: s.heap}
+			}
+		}
+	}
 	// vars: only those present in all states
 	for k, v0 := range live[0].vars {
 		same := true
